@@ -485,28 +485,30 @@ protected:
 };
 
 // Leak entries inside one report are listed in hash-bucket (= address) order: sort them for the event-log hash.
-static Str canonLeakOrder(const Str& in) {
-    const Str head = "Memory leak(s) found.\n", entry = "Alloc num (";
+// The order in which a report lists its blocks (and, when it runs out of room, which of them it lists at all) follows the detector's table, i.e.
+// addresses: for the event-log hash the entries of every report are sorted, and a report that ran out of room is reduced to a marker. Reports also
+// sit inside XML attributes (JUnit output), where a line break reads &#10;.
+static Str canonLeakOrderWith(const Str& in, const Str& nl) {
+    const Str head = Str("Memory leak(s) found.") + nl, entry = "Alloc num (";
     Str out; size_t pos = 0;
     while (true) {
         size_t h = in.find(head, pos);
         if (h == Str::npos) { out += in.substr(pos); break; }
         size_t body = h + head.size();
         size_t end = in.find("Total number of leaks:", body);
-        size_t etc = in.find("\netc etc etc", body);
-        bool truncated = false;
-        if (etc != Str::npos && (end == Str::npos || etc < end)) { end = etc; truncated = true; }
         if (end == Str::npos) end = in.size();
         out += in.substr(pos, body - pos);
         Vec<Str> entries; size_t e = body;
         while (e < end) { size_t nx = in.find(entry, e + 1); if (nx == Str::npos || nx > end) nx = end; entries.push_back(in.substr(e, nx - e)); e = nx; }
         std::sort(entries.begin(), entries.end());
-        if (truncated) out += "<which entries fit depends on address order>";
+        bool ranOut = end - body + 600 >= (size_t)SimpleStringBuffer::SIMPLE_STRING_BUFFER_LEN;      // (the listing nearly fills the detector's buffer)
+        if (ranOut) out += "<which entries fit depends on address order>";
         else for (size_t i = 0; i < entries.size(); i++) out += entries[i];
         pos = end;
     }
     return out;
 }
+static Str canonLeakOrder(const Str& in) { return canonLeakOrderWith(canonLeakOrderWith(in, "\n"), "&#10;"); }
 
 static Str normalizeAddrs0(const Str& in) {
     Str out; out.reserve(in.size());
